@@ -1,6 +1,10 @@
 (* C16 -- fixed-capacity containers match reference models.  Statements only; every proof
    is `exact <lemma>` from proofs/, followed by Print Assumptions (checked by ./check). *)
 From V Require Import model.Base model.RingQueue proofs.RingQueueProofs.
+From V Require Import model.Obs model.Vec proofs.VecProofs.
+From V Require Import model.SlotMap proofs.SlotMapProofs.
+From V Require Import model.Str proofs.StrProofs model.FlatMap proofs.FlatMapProofs.
+From Coq Require Import Permutation.
 
 (* queue.rs: for every capacity (0 included) and every operation sequence the ring buffer
    returns exactly what the unbounded FIFO with a capacity guard returns: push fails (false)
@@ -17,3 +21,228 @@ Theorem c16_queue_len_bounded : forall c ops q,
   q = fold_left (fun q o => fst (rq_step q o)) ops (rq_new c) -> (len q <= cap q)%N /\ cap q = c.
 Proof. exact rq_len_bounded. Qed.
 Print Assumptions c16_queue_len_bounded.
+
+(* ------------------------------------------------------------------------------------------
+   vector/mod.rs (trait Vector<T>; StaticVec, PolymorphicVec, RelocatableVec share this code).
+   Each element of a run is (returned value, drop log of that call). *)
+
+(* For every capacity (0 included) and every operation sequence over push / pop / insert /
+   remove / clear / truncate / resize / extend_from_slice / len / as_slice, the (len, buffer)
+   representation with its memmove shifts returns exactly what the list reference with a
+   capacity guard returns, including the documented errors and the per-call drop logs
+   (clear/truncate/container drop release in reverse index order; a rejected by-value
+   argument is dropped by the call). *)
+Theorem c16_vec_refines_list : forall (c : N) (ops : list vop),
+  vec_run (vec_new c) ops = svec_run (svec_new c) ops.
+Proof. exact vec_refines_list. Qed.
+Check c16_vec_refines_list : forall (c : N) (ops : list vop), vec_run (vec_new c) ops = svec_run (svec_new c) ops.
+Print Assumptions c16_vec_refines_list.
+
+(* From every reachable state no call panics (all slice indexing is in range) and len <= capacity. *)
+Theorem c16_vec_no_panic_bounded : forall c v s o, vreach c v s ->
+  snd (fst (vec_step v o)) <> OP /\ (vlen v <= c)%N.
+Proof. exact vec_no_panic_bounded. Qed.
+Print Assumptions c16_vec_no_panic_bounded.
+Example c16_vec_no_panic_bounded_nonvacuous : exists v s, vreach 2 v s /\ vlen v = 1%N.
+Proof.
+  exists (fst (fst (vec_step (vec_new 2) (VPush 7)))), (fst (fst (svec_step (svec_new 2) (VPush 7)))).
+  split; [apply vreachS, vreach0|reflexivity].
+Qed.
+Print Assumptions c16_vec_no_panic_bounded_nonvacuous.
+
+(* A call that fails with a documented error changes nothing, in the implementation model
+   (the whole record, not only its abstraction) and in the reference. *)
+Theorem c16_vec_error_unchanged : forall v o v' e d, vec_step v o = (v', OErr e, d) -> v' = v.
+Proof. exact vec_error_unchanged. Qed.
+Print Assumptions c16_vec_error_unchanged.
+Example c16_vec_error_unchanged_nonvacuous :
+  vec_step (vec_new 0) (VPush 7) = (vec_new 0, OErr EExceedsCapacity, [7%N]) /\
+  vec_step (fst (fst (vec_step (vec_new 2) (VPush 7)))) (VInsert 2 8) =
+    (fst (fst (vec_step (vec_new 2) (VPush 7))), OErr EOutOfBounds, [8%N]).
+Proof. split; reflexivity. Qed.
+Print Assumptions c16_vec_error_unchanged_nonvacuous.
+
+(* Drop exactly once: over the whole life of a vector (any capacity, any operation sequence,
+   then the container's Drop), the values that entered (moved in or cloned in, with
+   multiplicity) are exactly the values handed back plus the values dropped -- as multisets --
+   and the container's Drop releases exactly the still-stored elements, last index first. *)
+Theorem c16_vec_drop_once : forall c ops,
+  let '(ins, outs, sf) := svec_totals (svec_new c) ops in
+  let '(_, _, dfinal) := svec_step sf VClear in
+  Permutation ins (outs ++ dfinal) /\ dfinal = rev (sitems sf).
+Proof. exact vec_drop_once. Qed.
+Print Assumptions c16_vec_drop_once.
+
+(* ------------------------------------------------------------------------------------------
+   slotmap.rs (MetaSlotMap; SlotMap, FixedSizeSlotMap, RelocatableSlotMap share this code). *)
+
+(* The clause as the property states it -- the slot map returns what a finite map returns, for
+   all capacities -- is FALSE of the faithful model: SlotMap::new(0).insert(v) panics (the free
+   list head is 0 instead of INVALID), and get/contains with key >= capacity panic.  Both
+   reproduced on the real code through the harness and reported as candidate defects. *)
+Definition c16_slotmap_refines_map_full : Prop := sm_refines_map_full.
+Theorem c16_slotmap_refines_map_refuted : ~ c16_slotmap_refines_map_full.
+Proof. exact sm_refines_map_refuted. Qed.
+Print Assumptions c16_slotmap_refines_map_refuted.
+Theorem c16_slotmap_get_oob_witness :
+  snd (fst (sm_step (sm_new 1) (MGet 1))) = OP /\ snd (fst (smap_step false (smap_new 1) (MGet 1))) = OO None.
+Proof. exact sm_get_oob_witness. Qed.
+Print Assumptions c16_slotmap_get_oob_witness.
+
+(* Strongest true statement (partial): for every capacity and every operation sequence over
+   insert / insert_at / remove / get / contains / next_free_key / iteration / len / container
+   drop, the concrete representation (idx_to_data, doubly linked free list with head, data,
+   data_next_free_index ring queue, len) returns exactly what the finite-map reference returns
+   once the reference reproduces the two deviations above (smap_step true); drop logs agree as
+   multisets (they are equal lists except at container drop, whose order the reference leaves open). *)
+Theorem c16_slotmap_refines_map_partial : forall (c : N) (ops : list mop),
+  Forall2 obs_rel (sm_run (sm_new c) ops) (smap_run true (smap_new c) ops).
+Proof. exact sm_refines_map. Qed.
+Check c16_slotmap_refines_map_partial : forall (c : N) (ops : list mop),
+  Forall2 obs_rel (sm_run (sm_new c) ops) (smap_run true (smap_new c) ops).
+Print Assumptions c16_slotmap_refines_map_partial.
+
+(* ... and the reference with deviations IS the reference of the property on every call with
+   capacity > 0 whose get/contains key is in range. *)
+Theorem c16_slotmap_dev_agree : forall s o, dev_free s o -> smap_step true s o = smap_step false s o.
+Proof. exact smap_dev_agree. Qed.
+Print Assumptions c16_slotmap_dev_agree.
+Example c16_slotmap_dev_agree_nonvacuous : dev_free (smap_new 2) (MGet 1) /\ dev_free (smap_new 2) (MInsert 5).
+Proof. split; split; cbn; try exact I; reflexivity. Qed.
+Print Assumptions c16_slotmap_dev_agree_nonvacuous.
+
+(* The representation invariant, for every reachable state of every capacity > 0: the free list
+   from the head is a duplicate-free doubly linked path covering exactly the keys whose
+   idx_to_data is INVALID; occupied entries have both links INVALID; data_next_free_index holds
+   exactly the unused data slots (no duplicates, as many as there are free keys); occupied keys
+   point to pairwise distinct data slots holding the finite map's value; len = number of
+   occupied keys. *)
+Theorem c16_slotmap_invariant : forall c m s, (0 < c)%N -> mreach c m s ->
+  path (flist m) None (fhead m) (mfree s) /\ NoDup (mfree s) /\
+  (forall k, In k (mfree s) <-> (k < c)%N /\ geto (i2d m) k = None) /\
+  (forall k, (k < c)%N -> geto (i2d m) k <> None -> nthf (flist m) k = fl0) /\
+  NoDup (abs (dnf m)) /\
+  (forall d, In d (abs (dnf m)) -> (d < c)%N /\ geto (sdata m) d = None /\ forall k, (k < c)%N -> geto (i2d m) k <> Some d) /\
+  length (abs (dnf m)) = length (mfree s) /\
+  (forall k, (k < c)%N -> match geto (i2d m) k with
+                      | None => mget s k = None
+                      | Some d => (d < c)%N /\ geto (sdata m) d = mget s k /\ mget s k <> None end) /\
+  (forall k k' d, (k < c)%N -> (k' < c)%N -> geto (i2d m) k = Some d -> geto (i2d m) k' = Some d -> k = k') /\
+  smlen m = lenN (filter is_some (mvals s)).
+Proof. exact sm_invariant. Qed.
+Print Assumptions c16_slotmap_invariant.
+Example c16_slotmap_invariant_nonvacuous :
+  mreach 2 (fst (fst (sm_step (sm_new 2) (MInsertAt 1 7)))) (fst (fst (smap_step true (smap_new 2) (MInsertAt 1 7)))).
+Proof. apply mreachS, mreach0. Qed.
+Print Assumptions c16_slotmap_invariant_nonvacuous.
+
+(* insert returns a key that was free (it never overwrites a live entry and drops nothing), sets
+   exactly that key, and fails -- dropping exactly the rejected value, changing nothing -- only
+   when every key is occupied. *)
+Theorem c16_slotmap_insert_fresh : forall c m s v, (0 < c)%N -> mreach c m s ->
+  let '(m', ob, d) := sm_step m (MInsert v) in
+  let '(s', _, _) := smap_step true s (MInsert v) in
+  match ob with
+  | OO (Some k) => (k < c)%N /\ mget s k = None /\ d = [] /\ mget s' k = Some v /\
+                   (forall j, j <> k -> mget s' j = mget s j)
+  | OO None => (forall j, (j < c)%N -> mget s j <> None) /\ d = [v] /\ s' = s
+  | _ => False
+  end.
+Proof. exact sm_insert_fresh. Qed.
+Print Assumptions c16_slotmap_insert_fresh.
+
+(* Drop exactly once: over any operation sequence on a slot map of capacity > 0, the values that
+   entered are -- as multisets -- the values handed back by remove, plus the values dropped
+   inside calls (overwritten by insert_at, rejected by a failing insert / insert_at), plus the
+   drop log of the container's Drop taken on the concrete state reached by the same operations. *)
+Theorem c16_slotmap_drop_once : forall c ops, (0 < c)%N -> Forall (fun o => o <> MDrop) ops ->
+  let '(ins, outs, sf) := smap_totals (smap_new c) ops in
+  Permutation ins (outs ++ sm_drop_log (sm_final (sm_new c) ops)).
+Proof. exact sm_drop_once. Qed.
+Print Assumptions c16_slotmap_drop_once.
+Example c16_slotmap_drop_once_nonvacuous :
+  (0 < 2)%N /\ Forall (fun o => o <> MDrop) [MInsert 5; MInsertAt 0 6; MRemove 1].
+Proof. split; [reflexivity|]. repeat constructor; discriminate. Qed.
+Print Assumptions c16_slotmap_drop_once_nonvacuous.
+
+(* ------------------------------------------------------------------------------------------
+   string/mod.rs (trait String; StaticString, PolymorphicString, RelocatableString).
+   NOT proved: the refinement of the byte-list reference by the buffer model (Str.v str_step vs
+   sstr_step true); that tie is the G3 correspondence only.  Proved: *)
+
+(* The clause as stated is false of the faithful model (three independent witnesses, each
+   replayed on the real code and reported as a candidate defect). *)
+Definition c16_str_refines_full : Prop := str_refines_full.
+Theorem c16_str_refines_refuted : ~ c16_str_refines_full.
+Proof. exact str_refines_refuted. Qed.
+Print Assumptions c16_str_refines_refuted.
+Theorem c16_str_retain_witness :
+  str_run (str_new FPoly 1) [SPush 97; SRetain [97%N]; SBytes] = [OUnit; OUnit; OL []] /\
+  sstr_run false (sstr_new FPoly 1) [SPush 97; SRetain [97%N]; SBytes] = [OUnit; OUnit; OL [97%N]].
+Proof. exact str_retain_witness. Qed.
+Print Assumptions c16_str_retain_witness.
+Theorem c16_str_static_zero_len_witness :
+  str_run (str_new FStatic 1) [SPush 97; SStripPrefix []] = [OUnit; OP] /\
+  sstr_run false (sstr_new FStatic 1) [SPush 97; SStripPrefix []] = [OUnit; OB true].
+Proof. exact str_static_zero_len_witness. Qed.
+Print Assumptions c16_str_static_zero_len_witness.
+Theorem c16_str_nul_witness :
+  str_run (str_new FReloc 1) [SNul] = [ON POISON] /\
+  str_run (str_new FPoly 1) [SPush 97; SNul] = [OUnit; ON POISON] /\
+  sstr_run false (sstr_new FPoly 1) [SPush 97; SNul] = [OUnit; ON 0%N].
+Proof. exact str_nul_witness. Qed.
+Print Assumptions c16_str_nul_witness.
+
+(* partial: a call failing with InsertWouldExceedCapacity / InvalidCharacter leaves the whole
+   record (len, capacity, buffer) unchanged, for every state and every operation *)
+Theorem c16_str_error_unchanged_partial : forall s o s' e, str_step s o = (s', OErr e) -> s' = s.
+Proof. exact str_error_unchanged. Qed.
+Print Assumptions c16_str_error_unchanged_partial.
+Example c16_str_error_unchanged_partial_nonvacuous :
+  str_step (str_new FPoly 1) (SPush 0) = (str_new FPoly 1, OErr EInvalidCharacter) /\
+  str_step (str_new FPoly 0) (SPush 97) = (str_new FPoly 0, OErr EExceedsCapacity).
+Proof. split; reflexivity. Qed.
+Print Assumptions c16_str_error_unchanged_partial_nonvacuous.
+
+(* partial (byte rule): whenever insert_bytes accepts, the index was inside, the result fits and
+   every byte is in 1..127; on the reference acceptance is equivalent to that, for all byte
+   values (0, >= 128 and beyond included) *)
+Theorem c16_str_bytes_accept_sound : forall s idx l s',
+  str_insert_bytes s idx l = Val (s', OUnit) ->
+  (idx <= slen s)%N /\ (slen s + lenN l <= scap s)%N /\ Forall (fun b => (1 <= b <= 127)%N) l /\ slen s' = (slen s + lenN l)%N.
+Proof. exact str_insert_accept_sound. Qed.
+Print Assumptions c16_str_bytes_accept_sound.
+Example c16_str_bytes_accept_sound_nonvacuous :
+  exists s', str_insert_bytes (str_new FStatic 3) 0 [97%N; 98%N] = Val (s', OUnit).
+Proof. eexists. reflexivity. Qed.
+Print Assumptions c16_str_bytes_accept_sound_nonvacuous.
+Theorem c16_str_bytes_reference : forall s i l,
+  snd (sins s i l) = OUnit <->
+  (i <= lenN (sbytes s))%N /\ (lenN (sbytes s) + lenN l <= sscap s)%N /\ Forall (fun b => (1 <= b <= 127)%N) l.
+Proof. exact sins_accept_iff. Qed.
+Print Assumptions c16_str_bytes_reference.
+
+(* ------------------------------------------------------------------------------------------
+   flatmap.rs (MetaFlatMap over the slot map).  NOT proved: the refinement of the
+   association-list reference (tied by the G3 correspondence only).  Proved: *)
+Definition c16_flatmap_refines_full : Prop := fm_refines_full.
+Theorem c16_flatmap_refines_refuted : ~ c16_flatmap_refines_full.   (* FlatMap::new(0).insert panics *)
+Proof. exact fm_refines_refuted. Qed.
+Print Assumptions c16_flatmap_refines_refuted.
+
+(* partial: KeyAlreadyExists and IsFull leave the whole concrete record unchanged (every state,
+   every operation), and likewise the reference *)
+Theorem c16_flatmap_error_unchanged_partial : forall m o m' e d, fm_step m o = (m', OErr e, d) -> m' = m.
+Proof. exact fm_error_unchanged. Qed.
+Print Assumptions c16_flatmap_error_unchanged_partial.
+Example c16_flatmap_error_unchanged_partial_nonvacuous :
+  exists m d, fm_step m (FInsert 3 9) = (m, OErr EKeyExists, d).
+Proof. exists (fst (fst (fm_step (sm_new 2) (FInsert 3 8)))). eexists. vm_compute. reflexivity. Qed.
+Print Assumptions c16_flatmap_error_unchanged_partial_nonvacuous.
+Theorem c16_flatmap_reference_error_unchanged : forall dev s o s' e d, fmap_step dev s o = (s', OErr e, d) -> s' = s.
+Proof. exact fmap_error_unchanged. Qed.
+Print Assumptions c16_flatmap_reference_error_unchanged.
+Example c16_flatmap_reference_error_unchanged_nonvacuous :
+  fmap_step false (fmap_new 0) (FInsert 3 9) = (fmap_new 0, OErr EIsFull, [(KTAG + 3)%N; 9%N]).
+Proof. reflexivity. Qed.
+Print Assumptions c16_flatmap_reference_error_unchanged_nonvacuous.
